@@ -244,12 +244,16 @@ impl<T: Send + 'static> ReadyPipeQueue<T> {
         }
       };
 
+      verif_point!("pop:took_ready_entry");
       match slot.rx.try_recv() {
         Ok(item) => {
+          verif_point!("pop:took_item");
           let prev = slot.queued_count.fetch_sub(1, Ordering::AcqRel);
+          verif_point!("pop:decremented_queued");
           slot.reserved_count.fetch_sub(1, Ordering::AcqRel);
           debug_assert!(prev > 0);
           audit_slot(&slot, "pop");
+          verif_point!("pop:before_rearm");
 
           if prev > 1 {
             cancel_guard!(guard, "ReadyPipeQueue::pop → ready_tx.send");
@@ -299,12 +303,16 @@ impl<T: Send + 'static> ReadyPipeQueue<T> {
         Err(_) => return None,
       };
 
+      verif_point!("try_pop:took_ready_entry");
       match slot.rx.try_recv() {
         Ok(item) => {
+          verif_point!("try_pop:took_item");
           let prev = slot.queued_count.fetch_sub(1, Ordering::AcqRel);
+          verif_point!("try_pop:decremented_queued");
           slot.reserved_count.fetch_sub(1, Ordering::AcqRel);
           debug_assert!(prev > 0);
           audit_slot(&slot, "try_pop");
+          verif_point!("try_pop:before_rearm");
 
           if prev > 1 {
             let _ = self.ready_tx.try_send(Arc::clone(&slot));
@@ -372,6 +380,7 @@ impl<T: Send + 'static> ReadyPipeSender<T> {
     // If this future is dropped (tokio::select! picks another branch),
     // the guard's Drop rolls back reserved_count — no leak.
     let mut reservation = SendReservation::new(Arc::clone(&slot));
+    verif_point!("send:reserved");
 
     match slot.tx.try_send(item) {
       Ok(()) => {}
@@ -387,10 +396,12 @@ impl<T: Send + 'static> ReadyPipeSender<T> {
       Err(TrySendError::Sent(_)) => unreachable!(),
     }
 
+    verif_point!("send:written");
     // Message is committed to the channel. Seal the reservation so Drop
     // does not roll it back; the consumer's pop() will release it instead.
     let prev = slot.queued_count.fetch_add(1, Ordering::AcqRel);
     reservation.commit();
+    verif_point!("send:counted");
 
     if prev == 0 {
       cancel_guard!(cd, "ReadyPipeSender::send → ready_tx.send");
@@ -414,11 +425,14 @@ impl<T: Send + 'static> ReadyPipeSender<T> {
 
     let mut reservation = SendReservation::new(Arc::clone(&slot));
 
+    verif_point!("try_send:reserved");
     // If this returns an error, the reservation is dropped (rolled back).
     slot.tx.try_send(item)?;
+    verif_point!("try_send:written");
 
     let prev = slot.queued_count.fetch_add(1, Ordering::AcqRel);
     reservation.commit();
+    verif_point!("try_send:counted");
 
     if prev == 0 {
       // 0→1 transition: ready queue capacity must be >= max registered
@@ -455,6 +469,7 @@ impl<T: Send + 'static> ReadyPipeSender<T> {
 
     // Bulk reservation upfront — one atomic instead of N.
     slot.reserved_count.fetch_add(n, Ordering::AcqRel);
+    verif_point!("batch:reserved");
 
     let mut sent_batches = 0usize;
     let mut total_weight = 0usize;
@@ -464,11 +479,13 @@ impl<T: Send + 'static> ReadyPipeSender<T> {
       let weight = get_weight(&item);
       match slot.tx.try_send(item) {
         Ok(()) => {
+          verif_point!("batch:written");
           sent_batches += 1;
           total_weight += weight;
           // Inline increment — consumer may pop the item before the batch ends;
           // updating immediately keeps queued_count >= physical channel occupancy.
           let prev = slot.queued_count.fetch_add(1, Ordering::AcqRel);
+          verif_point!("batch:counted");
           if prev == 0 {
             had_zero_transition = true;
           }
@@ -485,12 +502,14 @@ impl<T: Send + 'static> ReadyPipeSender<T> {
       }
     }
 
+    verif_point!("batch:before_rollback");
     // Roll back any reservations for items we couldn't push.
     if sent_batches < n {
       slot
         .reserved_count
         .fetch_sub(n - sent_batches, Ordering::AcqRel);
     }
+    verif_point!("batch:before_arm");
 
     // Guaranteed wakeup on 0→1 transition. ready_capacity >= max registered
     // pipes, so the spin almost never executes more than one iteration.
